@@ -308,7 +308,7 @@ where
         pstack: &mut PStack<StorageT>,
         astack: &mut Vec<AStackType<LexerTypesT::LexemeT, ActionT>>,
         errors: &mut Vec<LexParseError<StorageT, LexerTypesT>>,
-        spans: &mut Vec<Span>,
+        spans: &mut Vec<(Span, bool)>,
     ) -> Option<ActionT> {
         let mut recoverer = None;
         let mut recovery_budget = Duration::from_millis(RECOVERY_TIME_BUDGET);
@@ -333,12 +333,21 @@ where
                     let prior = *pstack.last().unwrap();
                     pstack.push(self.stable.goto(prior, ridx).unwrap());
 
-                    let span = if spans.is_empty() {
-                        Span::new(0, 0)
-                    } else if pop_idx - 1 < spans.len() {
-                        Span::new(spans[pop_idx - 1].start(), spans[spans.len() - 1].end())
-                    } else {
-                        Span::new(spans[spans.len() - 1].start(), spans[spans.len() - 1].end())
+                    // Each entry of `spans` is (span, derived at least one lexeme). The span of
+                    // the reduced production runs from the start of the first to the end of the
+                    // last lexeme it derived; if it derived none, it is the zero-length span at
+                    // the end of the last lexeme parsed before it (0 at the start of the input).
+                    let kids = &spans[pop_idx - 1..];
+                    let span = match (kids.iter().find(|x| x.1), kids.iter().rfind(|x| x.1)) {
+                        (Some(f), Some(l)) => (Span::new(f.0.start(), l.0.end()), true),
+                        _ => {
+                            let p = if pop_idx - 1 == 0 {
+                                0
+                            } else {
+                                spans[pop_idx - 2].0.end()
+                            };
+                            (Span::new(p, p), false)
+                        }
                     };
                     spans.truncate(pop_idx - 1);
                     spans.push(span);
@@ -346,7 +355,7 @@ where
                     let v = AStackType::ActionType(self.actions[usize::from(pidx)](
                         ridx,
                         self.lexer,
-                        span,
+                        span.0,
                         astack.drain(pop_idx - 1..),
                         self.param.clone(),
                     ));
@@ -357,7 +366,7 @@ where
                     pstack.push(state_id);
                     astack.push(AStackType::Lexeme(la_lexeme));
 
-                    spans.push(la_lexeme.span());
+                    spans.push((la_lexeme.span(), true));
                     laidx += 1;
                 }
                 Action::Accept => {
@@ -428,7 +437,7 @@ where
         end_laidx: usize,
         pstack: &mut PStack<StorageT>,
         astack: &mut Option<&mut Vec<AStackType<LexerTypesT::LexemeT, ActionT>>>,
-        spans: &mut Option<&mut Vec<Span>>,
+        spans: &mut Option<&mut Vec<(Span, bool)>>,
     ) -> usize {
         assert!(lexeme_prefix.is_none() || end_laidx == laidx + 1);
         while laidx != end_laidx && laidx <= self.lexemes.len() {
@@ -445,18 +454,19 @@ where
                     let pop_idx = pstack.len() - self.grm.prod(pidx).len();
                     if let Some(ref mut astack_uw) = *astack {
                         if let Some(ref mut spans_uw) = *spans {
-                            let span = if spans_uw.is_empty() {
-                                Span::new(0, 0)
-                            } else if pop_idx - 1 < spans_uw.len() {
-                                Span::new(
-                                    spans_uw[pop_idx - 1].start(),
-                                    spans_uw[spans_uw.len() - 1].end(),
-                                )
-                            } else {
-                                Span::new(
-                                    spans_uw[spans_uw.len() - 1].start(),
-                                    spans_uw[spans_uw.len() - 1].end(),
-                                )
+                            // Keep in sync with the `Action::Reduce` arm of `lr`.
+                            let kids = &spans_uw[pop_idx - 1..];
+                            let span = match (kids.iter().find(|x| x.1), kids.iter().rfind(|x| x.1))
+                            {
+                                (Some(f), Some(l)) => (Span::new(f.0.start(), l.0.end()), true),
+                                _ => {
+                                    let p = if pop_idx - 1 == 0 {
+                                        0
+                                    } else {
+                                        spans_uw[pop_idx - 2].0.end()
+                                    };
+                                    (Span::new(p, p), false)
+                                }
                             };
                             spans_uw.truncate(pop_idx - 1);
                             spans_uw.push(span);
@@ -464,7 +474,7 @@ where
                             let v = AStackType::ActionType(self.actions[usize::from(pidx)](
                                 ridx,
                                 self.lexer,
-                                span,
+                                span.0,
                                 astack_uw.drain(pop_idx - 1..),
                                 self.param.clone(),
                             ));
@@ -488,7 +498,7 @@ where
                             self.next_lexeme(laidx)
                         };
                         astack_uw.push(AStackType::Lexeme(la_lexeme));
-                        spans_uw.push(la_lexeme.span());
+                        spans_uw.push((la_lexeme.span(), true));
                     }
                     pstack.push(state_id);
                     laidx += 1;
@@ -626,7 +636,7 @@ pub(super) trait Recoverer<
         in_laidx: usize,
         in_pstack: &mut PStack<StorageT>,
         astack: &mut Vec<AStackType<LexerTypesT::LexemeT, ActionT>>,
-        spans: &mut Vec<Span>,
+        spans: &mut Vec<(Span, bool)>,
     ) -> (usize, Vec<Vec<ParseRepair<LexerTypesT::LexemeT, StorageT>>>);
 }
 
